@@ -369,6 +369,8 @@ struct ParserState {{
     current: Token,
     truncation_mark: MarkTruncation,
     diag_count: usize,
+    error_node: Option<MarkOpened>,
+    error_since_advance: bool,
 }}
 pub struct Parser<'a> {{
     cst: Cst<'a>,
@@ -525,6 +527,8 @@ impl<'a> Parser<'a> {{
             current: self.current,
             truncation_mark: self.cst.data.mark_truncation(),
             diag_count: diags.len(),
+            error_node: self.error_node,
+            error_since_advance: self.error_since_advance,
         }}
     }}
     fn set_state(
@@ -535,6 +539,12 @@ impl<'a> Parser<'a> {{
         self.pos = state.pos;
         self.current = state.current;
         diags.truncate(state.diag_count);
+        if let (Some(error_node), None) = (state.error_node, self.error_node) {{
+            // the abandoned alternative closed (and announced) the pending error node
+            self.delete_node(Rule::Error, NodeRef(error_node.0));
+        }}
+        self.error_node = state.error_node;
+        self.error_since_advance = state.error_since_advance;
         for i in state.truncation_mark.node_count..self.cst.data.nodes.len() {{
             if let Node::Rule(rule, _) = self.cst.data.nodes[i] {{
                 self.delete_node(rule, NodeRef(i));
